@@ -127,6 +127,8 @@ def _registry(rng):
         reg("ndalign-bad", lambda d, dim: dnp.ndalign(d, dim, center=1.0)),
         reg("average", lambda d, dim: dnp.average(d, axis=dim)),
         reg("signal_to_noise", lambda d, dim: dnp.signal_to_noise(d, (0.0, 1.0), [(1.25, 2.0)], dim=dim)),
+        reg("signal_to_noise-regions", lambda d, dim: dnp.signal_to_noise(d, [(0.0, 0.8), (1.0, 2.0)], [(0.0, 0.5)], dim=dim)),
+        reg("signal_to_noise-noise-regions", lambda d, dim: dnp.signal_to_noise(d, (0.0, 1.0), [(1.25, 1.6), (1.6, 2.0)], dim=dim)),
         reg("signal_to_noise-bad", lambda d, dim: dnp.signal_to_noise(d, (0.0, 1.0), [("a", "b")], dim=dim)),
         reg("reference", lambda d, dim: dnp.reference(d, dim, 1.0, 0.0)),
         reg("pseudo_modulation", lambda d, dim: dnp.pseudo_modulation(d, 0.5, dim=dim)),
@@ -329,6 +331,37 @@ def registry_oracle(tier, seed):
     if not same(b1, hd) or not same(b2, hc):
         key = "C03:argument-modified:hydration:dictionaries"
         fails.append({"key": key, "clause": key, "ops": [{"function": "hydration"}]})
+    # fancy_plot for every experiment type the configuration knows (and nmr_spectrum), in calls that return AND in calls that raise
+    # part-way (a keyword matplotlib does not know, an xlim with one entry, showPar with a non-numeric parameter): the argument
+    # is what it was
+    try:
+        from dnplab.config.config import DNPLAB_CONFIG as _cfg
+        etypes = ["nmr_spectrum"] + [k.split(":", 1)[1] for k in _cfg.sections() if k.startswith("FANCY_PLOT:")]
+    except Exception:  # noqa: BLE001
+        etypes = ["nmr_spectrum", "epr_spectrum", "inversion_recovery", "enhancements_P"]
+    import io as _io, contextlib as _ctx
+    for et in etypes:
+        for label, kw in (("ok", {}), ("bad-keyword", {"no_such_matplotlib_keyword": 1}), ("bad-xlim", {"xlim": [0.5]}),
+                          ("bad-showpar", {"showPar": True})):
+            dd = dnp.DNPData(np.arange(24.0).reshape(2, 4, 3) + 0.5j, ["a", "t2", "b"], [np.arange(2.0), np.arange(4.0) * 0.5, np.arange(3.0)],
+                             attrs={"experiment_type": et, "center_field": "3480 G", "nmr_frequency": "400 MHz", "frequency": "9.4 GHz"})
+            before = deep_snap(dd)
+            with warnings.catch_warnings(), _ctx.redirect_stdout(_io.StringIO()):
+                warnings.simplefilter("ignore")
+                try:
+                    dnp.fancy_plot(dd, **kw)
+                except Exception:  # noqa: BLE001
+                    pass
+                try:
+                    import matplotlib.pyplot as _plt
+                    _plt.close("all")
+                except Exception:  # noqa: BLE001
+                    pass
+            n_eval += 1
+            ch = snap_diff(before, deep_snap(dd))
+            if ch:
+                key = "C03:argument-modified:fancy_plot:%s:%s" % (et, label)
+                fails.append({"key": key, "clause": key, "ops": [{"function": "fancy_plot", "experiment_type": et, "call": label, "parts": ch}]})
     # what hydration RETURNS shares nothing with what it was given — also when the T1 series is already on the enhancement
     # powers (no T1_powers key), so that no interpolation builds a new array
     try:
